@@ -48,9 +48,12 @@ class Lower:
             for suf in (' const', ' volatile', ' __restrict'):
                 if q.endswith(suf): q = q[:-len(suf)].strip(); changed = True
             if q.endswith('*const'): q = q[:-5].strip(); changed = True
+            if q.startswith('const (lambda'): q = q[6:].strip(); changed = True
         if q.endswith('&&'): return ('ref', q[:-2].strip())
         if q.endswith('&'): return ('ref', q[:-1].strip())
         if q.endswith('*'): return ('ptr', q[:-1].strip())
+        m = re.match(r'^(.*?)\(?(&&|&|\*)\)?\[(\d+)\]$', q)
+        if m: return ('ref' if m.group(2) != '*' else 'ptr', '%s[%s]' % (m.group(1).strip(), m.group(3)))
         m = re.match(r'^(.*)\[(\d+)\]$', q)
         if m: return ('array', m.group(1).strip(), int(m.group(2)))
         m = re.match(r'^\(lambda at .*:(\d+):(\d+)\)$', q)
@@ -58,6 +61,19 @@ class Lower:
             cands = self.idx.lambda_by_pos.get((int(m.group(1)), int(m.group(2))), [])
             if not cands:   # clang omits the line in a loc when it equals the previous one: match on column only
                 cands = [r for (l, c), rs in self.idx.lambda_by_pos.items() if c == int(m.group(2)) and l is None for r in rs]
+            if len(cands) > 1 and getattr(self, 'cur_fn', None) is not None:
+                # one closure record per instantiation of the enclosing template: take the one inside the function being lowered
+                def inside(rec, fn):
+                    p = self.idx.parent.get(rec['id'])
+                    while p is not None:
+                        if p.get('id') == fn.get('id'): return True
+                        p = self.idx.parent.get(p['id']) if 'id' in p else None
+                    return False
+                mine = [r for r in cands if inside(r, self.cur_fn)]
+                if not mine:
+                    encl = self.rec_of_method(self.cur_fn) if self.cur_fn.get('kind') in FUNC_KINDS else None
+                    mine = [r for r in cands if encl is not None and r['id'] == encl['id']]
+                if mine: cands = mine
             if len(cands) >= 1: return ('rec', cands[0])
             raise Unsupported('closure type %s not found' % q)
         if q.endswith(')'):
@@ -144,7 +160,13 @@ class Lower:
         if k == 'rec': return 'struct ' + self.need_rec(t[1])
         if k == 'func': return 'void'
         if k == 'array':
-            raise Unsupported('bare array type in this position')
+            # a C++ array object handled by reference/value outside a record: wrapped, so that T(&)[N] is a pointer
+            et = self.ctype(t[1]); cnt = t[2]
+            nm = 'vp_carr_' + sanitize(et) + '_%d' % cnt
+            if nm not in self.aux_structs:
+                self.aux_structs[nm] = ('carr', t[1], cnt)
+                self.rec_defs.append('struct %s { %s a[%d]; };' % (nm, et, max(cnt, 1)))
+            return 'struct ' + nm
         if k == 'stdarray':
             et = self.ctype(t[1]); cnt = t[2]
             nm = 'vp_array_' + sanitize(et) + '_%d' % cnt
